@@ -54,4 +54,23 @@ theorem batchRepeatDeriv_correct {n m : Nat} (o : Op n m) (h : Correct α o) (θ
   rw [h θ δ (r * d)]
   simp only [bilS_eq_sum, sum_pairIdx (k := r) (n := d), outer_pairIdx, inner_pairIdx]
 
+/-- Pairing the summed-back gradient of a broadcast parameter with a perturbation of the (small) parameter equals the sum
+over the batch members of the member gradient times the perturbation the member sees. -/
+theorem bcastSum_pair {B K : Nat} (π : Fin B → Fin K) (g : Fin B → α) (δ : Fin K → α) :
+    ∑ k, bcastSum π g k * δ k = ∑ b, g b * δ (π b) := by
+  simp only [bcastSum, sumFin_eq_sum, Finset.sum_mul, ite_mul, zero_mul]
+  rw [Finset.sum_comm]
+  refine Finset.sum_congr rfl fun b _ => ?_
+  rw [Finset.sum_ite_eq]
+  simp
+
+/-- The constant's slot of ConstantMul's derivative is `Σ_i Σ_c U[i,c] (⟦base⟧ V)[i,c]`, for every base operator. -/
+theorem constMul_const_grad {n m : Nat} (o : Op n m) (θ : Param α (.constMul o)) {d : Nat} (U : Mat α n d) (V : Mat α m d)
+    (δc : α) :
+    (bilinDeriv (.constMul o) θ U V).2 * δc = bilS (fun i j => denote o θ.1 i j * δc) U V := by
+  rw [bilS_const]
+  show (sumFin n fun i => sumFin d fun c => U i c * getV (memoV (mmul (denote o θ.1) V)) i c) * δc = _
+  rw [getV_memoV, mmul_eq]
+  simp only [sumFin_eq_sum]
+
 end LinOp.C07
